@@ -91,7 +91,21 @@ def run(prop, tier, seed):
         discharged += 0 if hyg else 1
         proof_broken = bool(broken or dirty or hyg)
 
-        cases = mod.cases(tier, seed)
+        try:
+            cases = mod.cases(tier, seed)
+        except Exception as e:  # noqa: BLE001
+            # an exception that escapes the observers: if it was raised inside the library under test it is reported as
+            # a violation (the harness guards every call it knows to be fallible; this is the safety net), else it is ours
+            tb = traceback.extract_tb(e.__traceback__)
+            repo = os.path.realpath(common.REPO)
+            if any(os.path.realpath(fr.filename).startswith(repo + os.sep) for fr in tb):
+                payload = {'property': prop, 'kind': 'implementation-raised-while-observing', 'seed': seed, 'tier': tier,
+                           'exception': repr(e), 'traceback': traceback.format_exception(type(e), e, e.__traceback__)[-12:],
+                           'note': 'the library raised at a call the harness expects to succeed on every input of this property'}
+                path = common.write_replay(prop, payload)
+                print(f'VIOLATION property={prop} replay={path}', flush=True)
+                return 1
+            raise
         bad, nshards, coq_secs = evaluate(mod, cases, workdir)
         searched_tier = tier
         if proof_broken and not bad and tier == 'quick':
